@@ -12,14 +12,14 @@ Theorem history_correct fuel cells refs maxd ops xs st :
   Quiet st /\
   (forall i v, lookup_data (s_data st) i = Some v ->
      mem_item i (s_inputs st) = true \/ exists f, spec_eval f st i = Val v) /\
-  (forall i r st', eval_top fuel st i = (r, st') -> r <> OutOfFuel ->
+  (forall i r st', eval_top fuel st i = (r, st') -> r <> OutOfFuel -> s_masks st' = s_masks st ->
      agrees r (fun g => spec_eval g st i)).
 Proof.
   intros Hops Hrun Hnf Hre.
   destruct (run_quiet _ _ _ _ _ Hrun Hnf (Quiet_init cells refs maxd) eq_refl Hops) as [R|Q]; [congruence|].
   split; [exact Q|]. destruct Q as ((HI & _) & _). split.
   - exact (proj2 HI).
-  - intros i r st' H Hr. now destruct (eval_top_sim _ _ _ _ _ H Hr HI) as (_ & _ & A).
+  - intros i r st' H Hr Hmk. destruct (eval_top_sim _ _ _ _ _ H Hr HI) as (_ & _ & A). exact (A Hmk).
 Qed.
 
 (** * C06: what a value edit discards *)
